@@ -1199,25 +1199,35 @@ def run_c14h(ctx):
         e_ = Num(Expr.leaf("$ix", "e"), ent="e")
         i_ = Num(Expr.leaf("$ix", "i"), ent="i")
         r = Interp(f).run_fn(meth("pop_edge").path, [me, e_])
-        want = Expr.atom(("call", "bitxor", G, Expr.atom(("call", "shl", one, Expr.leaf("$ix", "e")))))
+        want = X.bitop("bitxor", G, Expr.atom(("call", "shl", one, Expr.leaf("$ix", "e"))))
         ok = isinstance(r, Struct) and scalar_of(r.fields[MF], "id") == want and scalar_of(r.fields[EF], "n") == Expr.symbol("E")
         ctx.ob("C14-h", "pop_edge(g,e).id == g.id XOR (1<<e), extent unchanged", ok, idr["pop_edge"].path, "pop-edge-xor")
         r = Interp(f).run_fn(meth("has_edge").path, [me, i_])
-        bit = "%s Ne 0" % Expr.atom(("call", "bitand", G, Expr.atom(("call", "shl", one, Expr.leaf("$ix", "i"))))).key()
-        ctx.ob("C14-h", "has_edge(g,i) ⇔ g.id & (1<<i) ≠ 0", isinstance(r, Cond) and r.key() == bit, "preprocessing::TropicalSubGraphId::has_edge", "has-edge-bit",
+        from ..kern import boolean
+        zero_k = Expr.zero().key()
+
+        def cond_is(c, want_tree):
+            try:
+                return isinstance(c, Cond) and boolean.prop_equiv(c.tree, want_tree)[0]
+            except boolean.NotComparable:
+                return False
+        bit = ("cmp", "Ne", X.bitop("bitand", G, Expr.atom(("call", "shl", one, Expr.leaf("$ix", "i")))).key(), zero_k)
+        ctx.ob("C14-h", "has_edge(g,i) ⇔ g.id & (1<<i) ≠ 0", cond_is(r, bit), "preprocessing::TropicalSubGraphId::has_edge", "has-edge-bit",
                detail="got %s" % (r.key() if isinstance(r, Cond) else r))
         r = Interp(f).run_fn(meth("is_empty").path, [me])
-        ctx.ob("C14-h", "is_empty(g) ⇔ g.id == 0", isinstance(r, Cond) and r.key() == "%s Eq 0" % G.key(), "preprocessing::TropicalSubGraphId::is_empty", "is-empty-zero")
+        ctx.ob("C14-h", "is_empty(g) ⇔ g.id == 0", cond_is(r, ("cmp", "Eq", G.key(), zero_k)), "preprocessing::TropicalSubGraphId::is_empty", "is-empty-zero")
         r = Interp(f).run_fn(meth("has_one_edge").path, [me])
-        ctx.ob("C14-h", "has_one_edge(g) ⇔ popcount(g.id) == 1", isinstance(r, Cond) and r.key() == "%s Eq %s" % (Expr.atom(("call", "popcount", G)).key(), one.key()),
+        ctx.ob("C14-h", "has_one_edge(g) ⇔ popcount(g.id) == 1", cond_is(r, ("cmp", "Eq", Expr.atom(("call", "popcount", G)).key(), one.key())),
                "preprocessing::TropicalSubGraphId::has_one_edge", "one-edge-popcount")
         r = Interp(f).run_fn(meth("new").path, [num_size("E")])
         wantn = Expr.atom(("call", "shl", one, Expr.symbol("E"))) - one
         ctx.ob("C14-h", "new(E).id == (1<<E) − 1 (E set bits)", isinstance(r, Struct) and scalar_of(r.fields[MF], "id") == wantn
                and scalar_of(r.fields[EF], "n") == Expr.symbol("E"), idr["new"].path, "full-id")
         r = Interp(f).run_fn(meth("contains_edges").path, [me])
-        bitq = "%s Ne 0" % Expr.atom(("call", "bitand", G, Expr.atom(("call", "shl", one, Expr.leaf("$ix", "§"))))).key()
-        ok = isinstance(r, Arr) and r.classes == ("{§∈E | %s}" % bitq,) and scalar_of(r.at("k"), "elem") == Expr.leaf("$ix", "k")
+        bitq = ("cmp", "Ne", X.bitop("bitand", G, Expr.atom(("call", "shl", one, Expr.leaf("$ix", "§")))).key(), zero_k)
+        fo = getattr(r, "filter_of", None)
+        ok = (isinstance(r, Arr) and fo is not None and fo[0].classes == ("E",) and cond_is(fo[1], bitq)
+              and scalar_of(r.at("k"), "elem") == Expr.leaf("$ix", "k"))
         ctx.ob("C14-h", "contains_edges(g) = ascending {i < E : has_edge(g,i)}", ok, "preprocessing::TropicalSubGraphId::contains_edges", "contains-edges-set",
                detail="class %s" % (r.classes if isinstance(r, Arr) else r,))
         # the full id is built on the number of edges of the topology
@@ -1667,6 +1677,108 @@ def run_c03_tail(ctx, f):
     guarded_clause(ctx, "C03-d", "SampleGenerator", "getters", d)
     run_c03_flags(ctx)
     run_c03_loops(ctx)
+    run_c03_adjacency(ctx)
+
+
+def shares_endpoint(cond, a, b):
+    """Is the condition equivalent to `edges a and b share an endpoint` for EVERY equality pattern among the endpoint labels?
+    (The labels are touched only through ==/!=, so the finitely many set partitions of the operands are exhaustive.)"""
+    from ..kern import boolean
+    la, ra, lb, rb = leaf("vl", a).key(), leaf("vr", a).key(), leaf("vl", b).key(), leaf("vr", b).key()
+    want = ("or", ("or", ("cmp", "Eq", la, lb), ("cmp", "Eq", ra, lb)), ("or", ("cmp", "Eq", la, rb), ("cmp", "Eq", ra, rb)))
+    try:
+        return boolean.prop_equiv(cond.tree, want)
+    except boolean.NotComparable as e:
+        raise Undecided("adjacency predicate not comparable: %s" % e)
+
+
+def run_c03_adjacency(ctx, RID="C03-g"):
+    ctx.rule(RID, "the helpers the connected-components routine delegates to: adjacency(e,i) ⇔ edges e and i share an endpoint (all equality "
+                  "patterns of the four labels); neighbours(e,S) = the members of S adjacent to e; component ids = ⋃_{e∈c} (1 << e) with the graph's extent")
+    f = ctx.facts
+    try:
+        gr = idroles.graph_roles(ctx)
+        if "components" not in gr:
+            raise RoleLost("components routine")
+        idr = idroles.id_roles(ctx)
+    except RoleLost as e:
+        return ctx.lost(RID, str(e))
+    comp = gr["components"]
+    ctx.fn(comp.path)
+    # local callees reachable from the routine (through its closures), classified by signature shape
+    seen, work, helpers = set(), [comp], []
+    while work:
+        b = work.pop()
+        if id(b) in seen:
+            continue
+        seen.add(id(b))
+        for cl in f.closures_of(b.path) if hasattr(f, "closures_of") else []:
+            work.append(cl)
+        for bi, t, cb in ctx.roles.local_callees(b):
+            if cb is comp or id(cb) in seen:
+                continue
+            helpers.append(cb)
+            work.append(cb)
+    idty = f.adts[idr["adt"]]["self_ty"]
+    topo = Arr(("E",), lambda e: Struct("TropicalEdge", {
+        "edge_id": Num(Expr.leaf("$ix", e)), "left": Num(Expr.leaf("vl", e)), "right": Num(Expr.leaf("vr", e)),
+        "weight": Num(Expr.leaf("w", e)), "is_massive": Cond("key", "massive[«%s»]" % e)}), name="topology")
+    tg = Struct("TropicalGraph", {"dod": Num(Expr.symbol("dod")), "topology": topo, "num_massive_edges": Num(Expr.symbol("n_massive")),
+                                  "external_vertices": Arr(("X",), lambda v: Num(Expr.leaf("ext", v)), name="externals"), "num_loops": num_size("L")})
+    S = Arr(("S",), lambda k: Num(Expr.leaf("$ix", k), ent=k), name="subset")
+    ea, eb = Num(Expr.leaf("$ix", "a"), ent="a"), Num(Expr.leaf("$ix", "b"), ent="b")
+    counts = {"adjacency": 0, "neighbours": 0, "id-from-edges": 0}
+    done = set()
+    for h in helpers:
+        if id(h) in done:
+            continue
+        done.add(id(h))
+        fi = f.fns.get(h.path) or {}
+        ins = fi.get("inputs", [])
+        out = fi.get("output") or h.local_ty(0)
+        graph_self = fi.get("has_self") and "TropicalGraph" in (fi.get("impl_self") or "")
+
+        def clause(kind, thunk, _h=h):
+            counts[kind] += 1
+            ctx.fn(_h.path)
+            guarded_clause(ctx, RID, _h.path, kind, thunk)
+        if graph_self and out == "bool" and ins[1:] == ["usize", "usize"]:
+            def adj(_h=h):
+                r = Interp(f, models=dict(role_hooks(ctx))).run_fn(_h.path, [tg, ea, eb])
+                if not isinstance(r, Cond):
+                    raise Undecided("adjacency result is not a condition")
+                ok, why = shares_endpoint(r, "a", "b")
+                ctx.ob(RID, "adjacency(a,b) ⇔ {left,right}(a) ∩ {left,right}(b) ≠ ∅ (%s)" % why, ok, _h.path, "adjacency-relation",
+                       detail="the edge-adjacency test is not `the two edges share an endpoint`: %s; code condition: %s" % (why, r.key()[:300]))
+            clause("adjacency", adj)
+        elif graph_self and out.startswith("alloc::vec::Vec<usize") and len(ins) == 3 and ins[1] == "usize":
+            def nb(_h=h):
+                r = Interp(f, models=dict(role_hooks(ctx))).run_fn(_h.path, [tg, ea, S])
+                fo = getattr(r, "filter_of", None)
+                if not isinstance(r, Arr) or fo is None:
+                    raise Undecided("neighbour list is not a filter of the subset")
+                base_ok = fo[0].classes == ("S",) and scalar_of(r.at("k"), "member") == Expr.leaf("$ix", "k")
+                ctx.ob(RID, "neighbours(e,S) selects members of the subset S handed in (in its order)", base_ok, _h.path, "neighbours-of-subset")
+                ok, why = shares_endpoint(fo[1], "a", "§")
+                ctx.ob(RID, "neighbours(e,S) keeps i ⇔ i shares an endpoint with e (%s)" % why, ok, _h.path, "neighbours-relation",
+                       detail="the neighbour filter is not `shares an endpoint with e`: %s; code condition: %s" % (why, fo[1].key()[:300]))
+            clause("neighbours", nb)
+        elif not fi.get("has_self") and out == idty and len(ins) == 2 and ins[1] == "usize" and ins[0].startswith("&[usize"):
+            def ids(_h=h):
+                r = Interp(f, models=dict(role_hooks(ctx))).run_fn(_h.path, [S, num_size("E")])
+                if not isinstance(r, Struct):
+                    raise Undecided("id constructor result")
+                k = fresh("k")
+                one = Expr.const(1)
+                want = X.bitop("bitor", Expr.zero(), Expr.atom(("bitunion", k, "S", Expr.atom(("call", "shl", one, Expr.leaf("$ix", k))))))
+                got = scalar_of(r.fields[idr["mask_field"]], "mask")
+                ctx.ob(RID, "id(list) mask = 0 | ⋃_{k} (1 << list[k])", got == want, _h.path, "id-from-edges-mask", detail="mask = %s" % got.key()[:300])
+                ctx.ob(RID, "id(list) extent = the extent argument", scalar_of(r.fields[idr["extent_field"]], "extent") == Expr.symbol("E"), _h.path,
+                       "id-from-edges-extent")
+            clause("id-from-edges", ids)
+    ctx.note("%s: helpers of the components routine examined: %s" % (RID, counts))
+    if not any(counts.values()):
+        ctx.note("%s: the components routine delegates to no local helper of a recognised shape; nothing to decide here" % RID)
 
 
 def run_c03_flags(ctx, RID="C03-e"):
@@ -1700,36 +1812,14 @@ def run_c03_flags(ctx, RID="C03-e"):
         res = I.run_fn(fn, [tg, S])
         if not isinstance(res, Cond):
             raise Undecided("spanning routine does not return a condition")
-        got = res.key()
-        mass = "%s Eq %s" % (Expr.atom(("call", "count", "{§∈S | massive[«§»]}")).key(), Expr.symbol("n_massive").key())
-        touch = "(%s Eq %s Or %s Eq %s)" % (leaf("vl", "§q2").key(), leaf("ext", "§q1").key(), leaf("vr", "§q2").key(), leaf("ext", "§q1").key())
-        mom = "∃§q0∈comps(S): (∀§q1∈X: (∃§q2∈edges(comp(«§q0»)): (%s)))" % touch
-        want = "(%s And %s)" % (mass, mom)
-
-        def parts(k):
-            k = k.strip()
-            if k.startswith("(") and k.endswith(")") and " And " in k:
-                depth, out, cur = 0, [], ""
-                inner = k[1:-1]
-                i = 0
-                while i < len(inner):
-                    ch = inner[i]
-                    if ch == "(":
-                        depth += 1
-                    elif ch == ")":
-                        depth -= 1
-                    if depth == 0 and inner.startswith(" And ", i):
-                        out.append(cur)
-                        cur = ""
-                        i += 5
-                        continue
-                    cur += ch
-                    i += 1
-                out.append(cur)
-                return sorted(out)
-            return [k]
-        ctx.ob(RID, "spanning(S) is the conjunction of the mass condition and the momentum condition of the statement", parts(got) == parts(want), fn,
-               "spanning-definition", detail="code:      %s\n        reference: %s" % (got[:900], want[:900]))
+        from ..kern import boolean
+        mass = ("cmp", "Eq", Expr.atom(("call", "count", "{§∈S | massive[«§»]}")).key(), Expr.symbol("n_massive").key())
+        touch = ("or", ("cmp", "Eq", leaf("vl", "§q2").key(), leaf("ext", "§q1").key()), ("cmp", "Eq", leaf("vr", "§q2").key(), leaf("ext", "§q1").key()))
+        mom = ("exists", "§q0", "comps(S)", ("forall", "§q1", "X", ("exists", "§q2", "edges(comp(«§q0»))", touch)))
+        want = ("and", mass, mom)
+        ok, why = boolean.equiv(res.tree, want)
+        ctx.ob(RID, "spanning(S) is the conjunction of the mass condition and the momentum condition of the statement (%s)" % why[:160], ok, fn,
+               "spanning-definition", detail="%s\n        code:      %s\n        reference: %s" % (why, boolean.normal_text(res.tree)[:900], boolean.normal_text(want)[:900]))
     guarded_clause(ctx, RID, fn, "spanning-definition", body)
 
 
